@@ -128,6 +128,75 @@ func (ex *Exec) initStubs() {
 		// not a data write: bypass the shared-state accounting of store
 		st.Heap[fp.Obj] = ex.navStore(st.Heap[fp.Obj], fp.Path, ex.st.BV(v, w))
 	}
+	// sync.Map in a sequential harness: an association list kept in a heap
+	// object whose id is stashed in the struct's last (int) field. Keys are
+	// compared with Go's interface equality; a lookup whose outcome depends
+	// on symbolic data is unsupported. Store counts as a shared-state write
+	// when the map is (reachable from) a package-level variable.
+	syncMapContent := func(ex *Exec, st *State, args []Value, create bool) (*Ptr, int, *MapContent) {
+		p := args[0].(*Ptr)
+		sv := ex.load(st, p).(*StructV)
+		last := len(sv.Fields) - 1
+		fp := &Ptr{Obj: p.Obj, Path: append(append([]PathElem(nil), p.Path...), PathElem{Field: last})}
+		w, ok := sv.Fields[last].(*smt.Term)
+		if !ok || !w.IsConst() {
+			panic(unsupported("sync.Map with merged state"))
+		}
+		id := int(w.Val)
+		if id == 0 {
+			if !create {
+				return fp, 0, &MapContent{}
+			}
+			id = ex.newObj(st, &MapContent{})
+			st.Heap[fp.Obj] = ex.navStore(st.Heap[fp.Obj], fp.Path, ex.st.BV(uint64(id), w.W))
+		}
+		return fp, id, st.Heap[id].(*MapContent)
+	}
+	syncMapFind := func(ex *Exec, st *State, mc *MapContent, key Value) int {
+		idx, conds := ex.mapFind(st, mc, key)
+		if idx >= 0 {
+			return idx
+		}
+		for _, c := range conds {
+			if !c.IsFalse() {
+				panic(unsupported("sync.Map lookup with a symbolic key"))
+			}
+		}
+		return -1
+	}
+	t["(*sync.Map).Load"] = func(ex *Exec, st *State, fr *Frame, args []Value, in ssa.Instruction) (Value, *forkReq) {
+		_, _, mc := syncMapContent(ex, st, args, false)
+		if i := syncMapFind(ex, st, mc, args[1]); i >= 0 {
+			return &TupleV{[]Value{mc.Vals[i], ex.st.True}}, nil
+		}
+		return &TupleV{[]Value{&IfaceV{}, ex.st.False}}, nil
+	}
+	syncMapStore := func(ex *Exec, st *State, args []Value) {
+		p := args[0].(*Ptr)
+		if p.Obj < 0 || (p.Obj <= ex.initObjMax && !ex.inInit) {
+			st.SharedWrites = append(st.SharedWrites, "sync.Map behind a package-level variable")
+		}
+		_, id, mc := syncMapContent(ex, st, args, true)
+		if i := syncMapFind(ex, st, mc, args[1]); i >= 0 {
+			nv := append([]Value(nil), mc.Vals...)
+			nv[i] = args[2]
+			st.Heap[id] = &MapContent{mc.Keys, nv}
+			return
+		}
+		st.Heap[id] = &MapContent{append(append([]Value(nil), mc.Keys...), args[1]), append(append([]Value(nil), mc.Vals...), args[2])}
+	}
+	t["(*sync.Map).Store"] = func(ex *Exec, st *State, fr *Frame, args []Value, in ssa.Instruction) (Value, *forkReq) {
+		syncMapStore(ex, st, args)
+		return nil, nil
+	}
+	t["(*sync.Map).LoadOrStore"] = func(ex *Exec, st *State, fr *Frame, args []Value, in ssa.Instruction) (Value, *forkReq) {
+		_, _, mc := syncMapContent(ex, st, args, false)
+		if i := syncMapFind(ex, st, mc, args[1]); i >= 0 {
+			return &TupleV{[]Value{mc.Vals[i], ex.st.True}}, nil
+		}
+		syncMapStore(ex, st, args)
+		return &TupleV{[]Value{args[2], ex.st.False}}, nil
+	}
 	for _, typ := range []string{"sync.Mutex", "sync.RWMutex"} {
 		for _, m := range []string{"Lock", "RLock"} {
 			t["(*"+typ+")."+m] = func(ex *Exec, st *State, fr *Frame, args []Value, in ssa.Instruction) (Value, *forkReq) {
